@@ -1,0 +1,12 @@
+//go:build verif
+
+// Contracts for the deductive verifier in /verif (govc). Only compiled with -tags verif.
+
+package devicestate
+
+// update-gadget-assets runs alone: it is blocked while anything runs, and blocks everything.
+//@ func gadgetUpdateBlocked
+//@   props C07
+//@   ensures result == ((cand.kind == "update-gadget-assets" && len(running) != 0) || exists j int :: 0 <= j && j < len(running) && running[j].kind == "update-gadget-assets")
+//@   loop 0: invariant -1 <= idx0 && idx0 < len(running)
+//@   loop 0: invariant forall j int :: 0 <= j && j <= idx0 ==> running[j].kind != "update-gadget-assets"
